@@ -1709,8 +1709,11 @@ def c20_purge_loop_step(ctx):
             q.witness(pre, f"{tag}: path {k}")
         if n_rm == 0 or n_keep == 0:
             q.unknown.append(f"{tag}: expected removing and keeping passes (found {n_rm}/{n_keep})")
-    if sites < 2:
-        q.unknown.append(f"expected the purge loops of stop_browse and stop_resolve_hostname (found {sites})")
+    # the same purge written with Vec::retain needs no index reasoning (retain examines every element once)
+    retained = [n for n, fn in ctx.funcs.items() if "{closure" not in n and n.split("::")[-1].startswith("exec_command_stop")
+                and any(re.search(r"Vec::<(?:service_daemon::)?ReRun>::retain", t) for _, t in fn.blocks.values())]
+    if sites + len(retained) < 2:
+        q.unknown.append(f"expected the purges of stop_browse and stop_resolve_hostname (found {sites} index loops, {len(retained)} retain calls)")
     return q.result()
 
 
@@ -2235,7 +2238,7 @@ def c06_answer_only_when_announced(ctx):
         for i, p in enumerate(paths):
             if not (p.outcome.startswith("stop:") or p.outcome == "return" or p.outcome.startswith("cut:loop")):
                 continue
-            adds = [e for e in p.events if e[0] == "call" and re.search(r"(DnsOutgoing::add_answer\w*|add_answer_of_service)$", e[1])]
+            adds = [e for e in p.events if e[0] == "call" and re.search(r"(DnsOutgoing::add_answer\w*|add_answer_of_service\w*)$", e[1])]
             if not adds:
                 continue
             n_ans += 1
@@ -2350,6 +2353,103 @@ def c06_additionals_use_resolved_names(ctx):
             q.unknown.append(f"no explored path builds the {need} record")
     q.fail = q.fail[:6]
     q.nontrivial += len(seen)
+    return q.result()
+
+
+def _resolved_name(p, v, depth=0):
+    """v was returned by DnsRegistry::resolve_name, or is a to_string()/to_owned()/clone() of such a value"""
+    prod = _producer(p, v)
+    if prod is None and isinstance(v, Ref):
+        dv = _deref_val(p, v)
+        prod = _producer(p, dv) if dv is not None else None
+    if prod is None:
+        return False
+    if prod[1].endswith("resolve_name"):
+        return True
+    if depth < 3 and prod[1].split("::")[-1] in ("to_string", "to_owned", "clone", "into", "from") and prod[2]:
+        return _resolved_name(p, prod[2][0], depth + 1)
+    return False
+
+
+def c08_packets_use_resolved_names(ctx):
+    q = Q("c08_packets_use_resolved_names", ["Zeroconf::unregister_service (goodbye)", "the function that builds direct SRV/TXT answers (add_answer_of_service*) and its call site in Zeroconf::handle_query"],
+          "every explored path of the two packet builders (first pass of the address loops); all calls opaque",
+          ["calls are opaque; value provenance only: which call produced the name handed to each record constructor",
+           "a name that is a parameter of the builder is traced one level up, to the call sites in the crate"])
+    WHICH = {"DnsSrv::new": [(0, "SRV owner"), (6, "SRV target host")], "DnsTxt::new": [(0, "TXT owner")],
+             "DnsAddress::new": [(0, "address owner")], "DnsPointer::new": [(4, "PTR target")]}
+
+    def param_resolved_by_callers(fn, v):
+        """v is the untouched value of parameter k of fn: every non-test caller passes the result of resolve_name"""
+        if not (isinstance(v, Ref) and isinstance(v.obj, tuple) and v.obj and v.obj[0] == "arg" and v.path == ()):
+            return None
+        k = [l for l, _ in fn.args].index(v.obj[2]) if v.obj[2] in [l for l, _ in fn.args] else None
+        if k is None:
+            return None
+        short = fn.name.split("::")[-1]
+        sites = ok = 0
+        for name, g in ctx.funcs.items():
+            for b, (stmts, t) in g.blocks.items():
+                m = re.match(r"(?:_\d+ = )?(?:\w+::)*%s\((.*)\) -> " % re.escape(short), t)
+                if not m:
+                    continue
+                ops = [x.strip() for x in m.group(1).split(", ")]
+                if k >= len(ops):
+                    continue
+                sites += 1
+                loc = re.sub(r"^(copy|move) ", "", ops[k])
+                defs = [t2 for _, t2 in g.blocks.values() if t2.startswith(loc + " = ")]
+                if len(defs) == 1 and "resolve_name(" in defs[0]:
+                    ok += 1
+        return sites > 0 and ok == sites
+    builders = [n for n in ctx.funcs if n.endswith("::unregister_service")]
+    direct = [n for n in ctx.funcs if re.search(r"(^|::)add_answer_of_service\w*$", n)
+              and any("DnsSrv::new(" in t for _, t in ctx.funcs[n].blocks.values())]
+    if len(builders) != 1 or len(direct) != 1:
+        q.unknown.append(f"packet builders not found (unregister_service: {len(builders)}, direct-answer builder: {len(direct)})")
+        return q.result()
+    for name in builders + direct:
+        fn = ctx.funcs[name]
+        tag = name.split("::")[-1]
+        ex = Explorer(ctx.funcs, ctx.consts, max_paths=3000)
+        paths = ex.explore(fn.name)
+        if ex.cut_paths:
+            q.unknown.append(f"{tag}: path budget exhausted")
+        seen, bad = set(), {}
+        for i, p in enumerate(paths):
+            if not (p.outcome == "return" or p.outcome.startswith("cut:loop")):
+                continue
+            cn = [e[1] for e in p.events if e[0] == "call"]
+            if any(c.endswith("HashMap::<u32, DnsRegistry>::get") for c in cn) and not any(c.endswith("resolve_name") for c in cn):
+                continue   # no registry for this interface (look-up returned None): nothing was renamed there
+            for e in p.events:
+                if e[0] != "call":
+                    continue
+                short = "::".join(e[1].split("::")[-2:])
+                for idx, what in WHICH.get(short, []):
+                    if len(e[2]) <= idx:
+                        continue
+                    if name in direct and what in ("SRV owner", "TXT owner"):
+                        continue   # the owner of a direct answer is the question's name, which matched the resolved instance name
+                    seen.add(what)
+                    v = e[2][idx]
+                    ok = _resolved_name(p, v)
+                    if not ok:
+                        # a to_string() of a parameter, or the parameter itself
+                        base = v
+                        prod = _producer(p, v)
+                        if prod and prod[1].split("::")[-1] in ("to_string", "to_owned") and prod[2]:
+                            base = prod[2][0]
+                        ok = bool(param_resolved_by_callers(fn, base))
+                    if not ok:
+                        bad.setdefault(what, f"path {i}: {short} at {e[3]}")
+        for what, where in sorted(bad.items()):
+            q.fail.append((f"{tag}: the {what} is not the name the registry resolved: after a conflict rename this packet still carries the abandoned name", where))
+        need = ("SRV owner", "SRV target host", "TXT owner", "address owner", "PTR target") if name in builders else ("SRV target host", "address owner")
+        for w in need:
+            if w not in seen:
+                q.unknown.append(f"{tag}: no explored path builds the {w}")
+        q.nontrivial += len(seen)
     return q.result()
 
 
@@ -2783,7 +2883,7 @@ SPECS = {
     "C07": [c07_probe_clock, c07_reannounce_delay, c07_check_probing_paths, c07_resend_lookup_key, c07_announced_means_sent, c12_probe_timers],
     "C12": [c12_poll_timeout, c12_ipcheck_rearm, c12_hostname_timeout_timer, c12_hostname_timeout_due, c12_response_record_timers, c12_rerun_has_timer, c12_probe_timers, c12_conflict_probe_timer, c12_tiebreak_retry_timer, c11_cache_flush_rule, c05_verify_deadline, c07_check_probing_paths],
     "C19": [c19_browse_backoff, c19_hostname_backoff, c19_hostname_timeout_guard, c19_resolve_retry, c19_initial_delay, c19_rerun_due, c19_browse_listener_gone],
-    "C08": [c08_tiebreak_count_operands, c08_rename_by_record_kind, c08_answer_uses_resolved_host, c06_additionals_use_resolved_names],
+    "C08": [c08_tiebreak_count_operands, c08_rename_by_record_kind, c08_answer_uses_resolved_host, c06_additionals_use_resolved_names, c08_packets_use_resolved_names],
     "C06": [c06_additionals_use_resolved_names, c06_answer_only_when_announced, c06_address_families_by_qtype],
     "C16": [c16_decode_txt_step, c16_first_key_wins, c16_prop_len_check],
     "C01": [c01_name_cap_operand],
